@@ -1,12 +1,13 @@
 #!/bin/bash
-# usage: seed-regress.sh [lanes] : re-runs every stored seeded change (seeded/*/patch.diff) against the committed checks.
+# usage: seed-regress.sh [lanes] [name pattern, default *] : re-runs every stored seeded change (seeded/<pattern>/patch.diff) against the committed checks.
 # Each lane works on its own scratch worktree of /repo and its own copy of /verif (so /repo itself is never touched);
 # for every seed the check of its property is run, and C13 too when the seed's meta says the race build is what catches it.
 # Output: one line per seed "<seed> <property> CAUGHT|MISSED <scenario:oracle ...>" in /tmp/seed-regress.out
 lanes=${1:-3}
+pat=${2:-*}
 export GOFLAGS=-mod=mod GOPROXY=off GOSUMDB=off GOTOOLCHAIN=local
 out=/tmp/seed-regress.out; : > $out
-ls -d /verif/seeded/*/ | sed 's|/$||' > /tmp/seed-regress.list
+ls -d /verif/seeded/$pat/ | sed 's|/$||' > /tmp/seed-regress.list
 for l in $(seq 1 $lanes); do
   (
     r=/tmp/rlane$l; v=/tmp/vlane$l
